@@ -54,6 +54,9 @@ func (s *Spec) Eff(t *Type) Eff {
 func (s *Spec) AllAttrs(td *TypeDef) ([]*Attr, []string) {
 	attrs := append([]*Attr{}, td.Attrs...)
 	req := append([]string{}, td.Required...)
+	if td.Reference != "" {
+		attrs = s.inheritFromReference(td, attrs)
+	}
 	if td.Extend != "" {
 		if base := s.TypeDefByName(td.Extend); base != nil {
 			ba, br := s.AllAttrs(base)
@@ -430,9 +433,15 @@ func (s *Spec) Candidates(t *Type, loc string, depth int) []any {
 			add(Arr{valid[0], valid[1]})
 			add(Arr{valid[1], valid[0], valid[1]})
 		}
-		for i, iv := range invalid {
-			if i < 3 && len(valid) > 0 {
+		for _, iv := range s.pickInvalid(e.Elem, invalid, 3) {
+			if len(valid) > 0 {
 				add(Arr{valid[0], iv})
+			}
+		}
+		if s.deep() {
+			// deep families: every valid element candidate once, as a one-element array
+			for _, v := range valid {
+				add(Arr{v})
 			}
 		}
 		for _, v := range e.Vs {
@@ -464,13 +473,15 @@ func (s *Spec) Candidates(t *Type, loc string, depth int) []any {
 			if len(vk) > 1 {
 				add(MapV{{vk[0], ve[0]}, {vk[1], ve[len(ve)-1]}})
 			}
-			for i, k := range ik {
-				if i < 2 {
-					add(MapV{{k, ve[0]}})
-				}
+			for _, k := range s.pickInvalid(e.Key, ik, 2) {
+				add(MapV{{k, ve[0]}})
 			}
-			for i, v := range ie {
-				if i < 2 {
+			for _, v := range s.pickInvalid(e.Elem, ie, 2) {
+				add(MapV{{vk[0], v}})
+			}
+			if s.deep() {
+				// deep families: every valid element candidate once, as a one-entry map
+				for _, v := range ve {
 					add(MapV{{vk[0], v}})
 				}
 			}
@@ -497,6 +508,10 @@ func (s *Spec) Candidates(t *Type, loc string, depth int) []any {
 		for _, o := range s.ObjectCandidates(e, func(string) string { return loc }, depth) {
 			add(o)
 		}
+	case e.K == KUnion:
+		for _, u := range s.unionCandidates(e, loc, depth) {
+			add(u)
+		}
 	}
 	return out
 }
@@ -516,7 +531,7 @@ func (s *Spec) split(t *Type, vals []any) (valid, invalid []any) {
 // when it has at most ProductCap elements, otherwise the star around a base point (every
 // attribute varied over its whole domain while the others sit at their first valid value).
 func (s *Spec) ObjectCandidates(e Eff, locOf func(attr string) string, depth int) []any {
-	if depth > 3 {
+	if depth > s.maxDepth() {
 		return []any{Obj{}}
 	}
 	type dom struct {
